@@ -248,7 +248,8 @@ impl<'a> Iterator for ExtDiagBlockIter<'a> {
     type Item = ExtDiagBlock<'a>;
 
     fn next(&mut self) -> Option<Self::Item> {
-        let raw_buffer = self.ext_diag.raw_diag_buffer().unwrap();
+        // Without a diagnostics buffer there are no blocks to iterate over.
+        let raw_buffer = self.ext_diag.raw_diag_buffer()?;
         if self.cursor >= raw_buffer.len() {
             return None;
         }
